@@ -123,13 +123,17 @@ theorem conv_meets_denote (P : Params) (hP : FloatSane P) (cfg : Cfg) (p : Prim)
         simp [h1, h2]
   | time =>
     simp only [convPrim, Spec.denote, Spec.Den.of]
-    cases (P s).t <;> simp
+    cases cfg.convs.lookup timeKey with
+    | some c => simp only []; cases (P s).c.lookup c <;> simp
+    | none => simp only []; cases (P s).t <;> simp
   | dur =>
     simp only [convPrim, Spec.denote, Spec.Den.of]
     cases (P s).d <;> simp
   | opq k =>
     simp only [convPrim, Spec.denote, Spec.Den.of]
-    cases (P s).o.lookup k <;> simp
+    cases cfg.convs.lookup k with
+    | some c => simp only []; cases (P s).c.lookup c <;> simp
+    | none => simp only []; cases (P s).o.lookup k <;> simp
 
 
 end Rivaas.Bind
